@@ -23,6 +23,8 @@ CHECKS = {
     "C18": ("c18", {}),
     "C14": ("c14", {}),
     "C16": ("c16", {}),
+    "C13": ("c13", {}),
+    "C07": ("c07", {}), "C09": ("c09", {}), "C17": ("c17", {}),
 }
 
 
